@@ -6,6 +6,6 @@ CONSTANTS D <- MCD
   MaxRegs = 2
   Locked = TRUE
 SPECIFICATION MCSpec
-INVARIANTS NoCrash Exclusion SeesCompleted
+INVARIANTS NoCrash Exclusion SeesCompleted ReadersAreRunning
 PROPERTIES StableUnderReaders
 CHECK_DEADLOCK FALSE
